@@ -116,20 +116,20 @@ def layout_plan(tier, rng, linkable_only=False):
     if tier == "quick":
         plan = [
             ("full",    dict(skels=["s3"], mode="bfs", maxgaps=1, maxper=1, allowed="first", choices=ALL_CHOICES, full=True), 1, None, None),
-            ("single",  dict(skels=["x", "s3"], mode="bfs", maxgaps=1, maxper=1, allowed="all", choices=ALL_CHOICES), 2, None, None),
+            ("single",  dict(skels=["x", "s3", "e24"], mode="bfs", maxgaps=1, maxper=1, allowed="all", choices=ALL_CHOICES), 2, None, None),
             ("samegap", dict(skels=["x"], mode="bfs", maxgaps=1, maxper=2, allowed="first", choices=ALL_CHOICES), 1, None, None),
             ("twogaps", dict(skels=["s2"], mode="bfs", maxgaps=2, maxper=1, allowed="first", choices=six), 1, None, None),
-            ("sim",     dict(skels=["p3", "x", "s2"], mode="sim", maxgaps=0, maxper=2, allowed="all", choices=ALL_CHOICES, density=25), 1, 150, 600),
+            ("sim",     dict(skels=["p3", "x", "s2", "e24"], mode="sim", maxgaps=0, maxper=2, allowed="all", choices=ALL_CHOICES, density=25), 1, 150, 600),
         ]
     else:
         plan = [
             ("full",    dict(skels=["s3"], mode="bfs", maxgaps=1, maxper=1, allowed="all", choices=ALL_CHOICES, full=True), 2, None, None),
             ("fullx",   dict(skels=["x", "s2"], mode="bfs", maxgaps=1, maxper=2, allowed="first", choices=CORE_CHOICES + ["BCM", "LCE", "BOM", "VT"], full=True), 2, None, None),
-            ("single",  dict(skels=["x", "p2", "p3", "ed", "s2", "s3"], mode="bfs", maxgaps=1, maxper=1, allowed="all", choices=ALL_CHOICES), 3, None, None),
-            ("samegap", dict(skels=["x", "p2", "ed"], mode="bfs", maxgaps=1, maxper=2, allowed="reps", choices=ALL_CHOICES), 3, None, None),
-            ("triple",  dict(skels=["x", "ed"], mode="bfs", maxgaps=1, maxper=3, allowed="first", choices=CORE_CHOICES + ["LCE", "BOM"]), 2, None, None),
-            ("twogaps", dict(skels=["x", "ed"], mode="bfs", maxgaps=2, maxper=1, allowed="first", choices=ALL_CHOICES), 3, None, None),
-            ("sim",     dict(skels=["x", "p2", "p3", "ed"], mode="sim", maxgaps=0, maxper=2, allowed="all", choices=ALL_CHOICES, density=20), 1, 1500, 600),
+            ("single",  dict(skels=["x", "e24", "p2", "p3", "ed", "s2", "s3"], mode="bfs", maxgaps=1, maxper=1, allowed="all", choices=ALL_CHOICES), 3, None, None),
+            ("samegap", dict(skels=["x", "e24", "p2", "ed"], mode="bfs", maxgaps=1, maxper=2, allowed="reps", choices=ALL_CHOICES), 3, None, None),
+            ("triple",  dict(skels=["x", "e24", "ed"], mode="bfs", maxgaps=1, maxper=3, allowed="first", choices=CORE_CHOICES + ["LCE", "BOM"]), 2, None, None),
+            ("twogaps", dict(skels=["x", "e24", "ed"], mode="bfs", maxgaps=2, maxper=1, allowed="first", choices=ALL_CHOICES), 3, None, None),
+            ("sim",     dict(skels=["x", "e24", "p2", "p3", "ed"], mode="sim", maxgaps=0, maxper=2, allowed="all", choices=ALL_CHOICES, density=20), 1, 1500, 600),
             ("simdense", dict(skels=["p2", "ed"], mode="sim", maxgaps=0, maxper=2, allowed="all", choices=ALL_CHOICES, density=70), 1, 300, 600),
         ]
     if linkable_only:          # C23: layouts of the featgen skeletons only (they must link), a lighter plan: cases are sampled
@@ -137,6 +137,8 @@ def layout_plan(tier, rng, linkable_only=False):
             plan = [
                 ("single",  dict(skels=["s3"], mode="bfs", maxgaps=1, maxper=1, allowed="all", choices=ALL_CHOICES), 2, None, None),
                 ("sim",     dict(skels=["s2"], mode="sim", maxgaps=0, maxper=2, allowed="all", choices=ALL_CHOICES, density=25), 1, 30, 600),
+                # runs of consecutive line comments in a CRLF context (every case is used, not sampled)
+                ("crlf",    dict(skels=["s3"], mode="bfs", maxgaps=1, maxper=2, allowed="first", choices=["LCR"]), 1, None, None),
             ]
         else:
             plan = [
@@ -145,6 +147,7 @@ def layout_plan(tier, rng, linkable_only=False):
                 ("twogaps", dict(skels=["s2", "s3"], mode="bfs", maxgaps=2, maxper=1, allowed="first", choices=ALL_CHOICES), 2, None, None),
                 ("sim",     dict(skels=["p2", "p3", "ed"], mode="sim", maxgaps=0, maxper=2, allowed="all", choices=ALL_CHOICES, density=20), 1, 400, 600),
                 ("simdense", dict(skels=["ed", "s2"], mode="sim", maxgaps=0, maxper=2, allowed="all", choices=ALL_CHOICES, density=70), 1, 60, 600),
+                ("crlf",    dict(skels=["s2", "s3"], mode="bfs", maxgaps=1, maxper=3, allowed="first", choices=["LCR", "LC"]), 2, None, None),
             ]
     return plan
 
@@ -460,21 +463,21 @@ def _check_lines(binary, wd, tier):
     return n[0], r
 
 
-def _sample_layouts(files, k, rng, outpath):
-    """pick about k layout cases (plus their skeletons) from the generated layout files"""
-    skels, cases = {}, []
-    for f in files:
+def _sample_layouts(files, k, rng, outpath, keep_all=()):
+    """pick about k layout cases (plus their skeletons) from the generated layout files; every case of keep_all is kept"""
+    skels, cases, always = {}, [], []
+    for f in list(files) + list(keep_all):
         with open(f) as fh:
             for l in fh:
                 if '"skeleton"' in l[:14]:
                     o = json.loads(l)
                     skels[o["skeleton"]] = l
                 elif '"skel"' in l[:10]:
-                    cases.append(l)
+                    (always if f in keep_all else cases).append(l)
     linkable = [l for l in cases if json.loads(l)["skel"] in LINKABLE]
     with_comments = [l for l in linkable if '"ncom":0' not in l]
     without = [l for l in linkable if '"ncom":0' in l]
-    pick = vf.sample(rng, with_comments, (k * 4) // 5) + vf.sample(rng, without, k // 5)
+    pick = vf.sample(rng, with_comments, (k * 4) // 5) + vf.sample(rng, without, k // 5) + [l for l in always if '"layout":[]' not in l]
     used = {json.loads(l)["skel"] for l in pick}
     with open(outpath, "w") as fh:
         for s in sorted(used):
@@ -528,7 +531,8 @@ def run_c23(pid, tier, replay):
         nschema = _check_schema(binary, schema[0])
         for (name, *_), (cf, _seen, _r, _s) in zip(ff_runs, ff_res):
             casefiles["ff" + name] = cf
-        nlay = _sample_layouts([lay[n][0] for n in lay], 40 if tier == "quick" else 800, rng, os.path.join(wd, "layouts_c23.jsonl"))
+        nlay = _sample_layouts([lay[n][0] for n in lay if n != "crlf"], 40 if tier == "quick" else 800, rng,
+                               os.path.join(wd, "layouts_c23.jsonl"), keep_all=[lay["crlf"][0]])
         casefiles["lay"] = os.path.join(wd, "layouts_c23.jsonl")
         gen_info = {"ff": {n[0]: len(r[1]) for n, r in zip(ff_runs, ff_res)}, "layouts_sampled": nlay,
                     "layouts_generated": {n: lay[n][1] for n in lay}, "line_tables_checked": nlines, "schema_fields_checked": nschema}
@@ -679,6 +683,9 @@ SKEL_HEADER = '''------------------------------ MODULE LayoutSkel --------------
                   signed / hex / octal / float / exponent / inf / nan spellings, string escapes and raw multi-byte text, <...> message literals, an Any type URL,
                   import public / weak, groups, ranges to max, streaming rpcs, empty statements,
                   fully-qualified names with a leading dot); parse-only, it does not link
+     e24          hand-written edition 2024 file: import option, export / local declarations, and type
+                  names whose first component is a keyword (export.a.B, local.x.Y, stream.returns.rpc, ...);
+                  parse-only
      p2, p3, ed   harness/_common/featgen main.proto for the maximal valid feature set of each syntax
                   (without the comments / weird_layout features: Layout supplies the trivia)
      s3, s2       two small featgen files (quick tier)
@@ -696,7 +703,7 @@ def regen_skeletons():
         return {"p3opt": s == "proto3", "group": s != "proto3", "extrange": s != "proto3", "extend": s != "proto3",
                 "required": s != "proto3", "default": s != "proto3", "features": s == "editions",
                 "jsoncollide": s == "proto2", "mapfeatures": s == "editions"}.get(f, True)
-    reqs = [{"id": "x"}]
+    reqs = [{"id": "x"}, {"id": "e24"}]
     for sid, syn in (("p2", "proto2"), ("p3", "proto3"), ("ed", "editions")):
         reqs.append({"id": sid, "syntax": syn, "features": [f for f in SKEL_FEATURES if ok(syn, f)]})
     reqs.append({"id": "s3", "syntax": "proto3", "features": ["pkg", "enum", "stdopt", "oneof", "service"]})
